@@ -186,4 +186,94 @@ Proof.
       rewrite x_create_not_empty by (cbn [x_rb]; discriminate). discriminate.
 Qed.
 
+(** Repeated backspaces always reach the idle state: every (plain or ctrl) backspace on a non-idle state strictly
+    shortens the composition, so [length] of it many backspaces end the session - from ANY state, not only reachable ones. *)
+Lemma create_suggestion_buf c s : p_buf (fst (create_suggestion Q c s)) = p_buf s.
+Proof.
+  destruct (c_suggest c) eqn:Hs.
+  - destruct (create_suggestion_full Q c s Hs) as (_ & _ & _ & _ & _ & _ & _ & Bf & _). exact Bf.
+  - rewrite (create_suggestion_single Q c s Hs). reflexivity.
+Qed.
+
+Lemma removelast_length {A} (l : list A) : l <> [] -> S (length (removelast l)) = length l.
+Proof.
+  intros Hl. destruct (exists_last Hl) as (l' & a & ->). rewrite removelast_last, app_length. cbn. lia.
+Qed.
+
+Lemma backspace_shortens c s ctrl :
+  p_buf s <> [] -> (length (p_buf (fst (p_backspace Q c s ctrl))) < length (p_buf s))%nat.
+Proof.
+  intros Hb. unfold p_backspace. destruct (p_buf s) as [|a l] eqn:Eb; [congruence|].
+  destruct ctrl; [cbn; lia|].
+  pose proof (removelast_length (a :: l) ltac:(discriminate)) as Hl.
+  destruct (removelast (a :: l)) as [|y r] eqn:Er; [cbn; lia|].
+  destruct (out_empty (snd (create_suggestion Q c (set_buf s (y :: r))))); cbn [fst].
+  - cbn. lia.
+  - rewrite create_suggestion_buf. cbn [set_buf p_buf]. cbn [length] in *. lia.
+Qed.
+
+Fixpoint p_backspaces (c : pcfg) (s : pstate) (ctrls : list bool) : pstate :=
+  match ctrls with
+  | [] => s
+  | b :: t => p_backspaces c (fst (p_backspace Q c s b)) t
+  end.
+
+Lemma backspaces_reach_idle c : forall ctrls s,
+  (length (p_buf s) <= length ctrls)%nat -> p_ongoing (p_backspaces c s ctrls) = false.
+Proof.
+  induction ctrls as [|b t IH]; intros s Hl; cbn [p_backspaces].
+  - unfold p_ongoing. destruct (p_buf s); [reflexivity | cbn in Hl; lia].
+  - apply IH. destruct (p_buf s) as [|a l] eqn:Eb.
+    + rewrite (idle_backspace c s b Eb). cbn [fst]. rewrite Eb. cbn. lia.
+    + pose proof (backspace_shortens c s b ltac:(rewrite Eb; discriminate)) as Hs. rewrite Eb in Hs. cbn [length] in *. lia.
+Qed.
+
+(** fixed method: the measure is the composed text plus the waiting sign *)
+Definition x_measure (s : xstate) : nat := (length (x_rb s) + match x_pend s with Some _ => 1 | None => 0 end)%nat.
+
+Lemma x_create_shape c s : x_rb (fst (x_create Q c s)) = x_rb s /\ x_pend (fst (x_create Q c s)) = x_pend s.
+Proof. unfold x_create. destruct (x_suggest c); cbn; auto. Qed.
+
+Lemma x_backspace_shortens c s ctrl :
+  (x_measure s <> 0 -> x_measure (fst (x_backspace Q c s ctrl)) < x_measure s)%nat.
+Proof.
+  unfold x_measure at 1 3. intros Hm. unfold x_backspace.
+  destruct (x_rb s) as [|a rb] eqn:Er.
+  - destruct (x_pend s) eqn:Ep; [|cbn in Hm; congruence].
+    destruct ctrl; cbn; lia.
+  - destruct ctrl; [unfold x_measure; cbn; lia|].
+    destruct (x_pend s) eqn:Ep.
+    + unfold x_measure. destruct (x_create_shape c {| x_rb := a :: rb; x_typed := removelast (x_typed s); x_pend := None; x_sugg := x_sugg s |}) as (-> & ->).
+      cbn. lia.
+    + destruct rb as [|b rb]; [unfold x_measure; cbn; lia|].
+      unfold x_measure. destruct (x_create_shape c {| x_rb := b :: rb; x_typed := removelast (x_typed s); x_pend := None; x_sugg := x_sugg s |}) as (-> & ->).
+      cbn. lia.
+Qed.
+
+Fixpoint x_backspaces (c : xcfg) (s : xstate) (ctrls : list bool) : xstate :=
+  match ctrls with
+  | [] => s
+  | b :: t => x_backspaces c (fst (x_backspace Q c s b)) t
+  end.
+
+Lemma x_idle_measure s : x_measure s = 0%nat -> x_ongoing s = false.
+Proof. unfold x_measure, x_ongoing. destruct (x_rb s); destruct (x_pend s); cbn; intros; try lia; reflexivity. Qed.
+
+Lemma x_idle_backspace_stays c s ctrl : x_measure s = 0%nat -> x_measure (fst (x_backspace Q c s ctrl)) = 0%nat.
+Proof.
+  unfold x_measure at 1. intros Hm. unfold x_backspace.
+  destruct (x_rb s) eqn:Er; [|cbn in Hm; lia]. destruct (x_pend s) eqn:Ep; [cbn in Hm; lia|].
+  destruct ctrl; cbn [fst]; unfold x_measure; rewrite Er, Ep; reflexivity.
+Qed.
+
+Lemma x_backspaces_reach_idle c : forall ctrls s,
+  (x_measure s <= length ctrls)%nat -> x_ongoing (x_backspaces c s ctrls) = false.
+Proof.
+  induction ctrls as [|b t IH]; intros s Hl; cbn [x_backspaces].
+  - apply x_idle_measure. cbn in Hl. lia.
+  - apply IH. destruct (PeanoNat.Nat.eq_dec (x_measure s) 0) as [E|E].
+    + rewrite (x_idle_backspace_stays c s b E). lia.
+    + pose proof (x_backspace_shortens c s b E). cbn [length] in Hl. lia.
+Qed.
+
 End C06.
